@@ -100,10 +100,12 @@ def run(pid, tier, seed):
             model_out = ctx.model(mlines) if model_ok else [None] * len(lines)
             for c, io, mo in zip(cases, impl_out, model_out):
                 cats[c['cat']] = cats.get(c['cat'], 0) + 1
-                exp_impl = mod.canon_impl(io) if hasattr(mod, 'canon_impl') else io
+                exp_impl = (mod.canon_impl_case(c, io) if hasattr(mod, 'canon_impl_case')
+                            else mod.canon_impl(io) if hasattr(mod, 'canon_impl') else io)
                 if mo is not None:
                     n_cmp += 1
-                    mo2 = mod.canon_model(mo, prof) if hasattr(mod, 'canon_model') else mo
+                    mo2 = (mod.canon_model_case(c, mo, prof) if hasattr(mod, 'canon_model_case')
+                           else mod.canon_model(mo, prof) if hasattr(mod, 'canon_model') else mo)
                     if exp_impl != mo2:
                         n_diff += 1
                         if len(first_diffs) < 5:
